@@ -5,11 +5,12 @@ META = dict(
     technique="explicit-state BFS over stamp-advance/process/send/restart sequences on real exchanges vs a reference timer model, per timer configuration",
     text="For every exchange class (Exchanger, a minimal Exchangent subclass), stack kind (Stack, RemoteStack), timeout in {default, 0, 0.5, 1} and "
          "redo timeout in {default, 0, 0.25, 0.5, 1} under every redo keyword spelling the constructor declares, a fresh real exchange is created, started, "
-         "and driven by all sequences of operations (advance the stack stamp by 0/0.125/0.25/0.5/1 then process(); send a new message; start again) "
+         "and driven by all sequences of operations (advance the stack stamp by 0/0.125/0.25/0.5/1 then process(); send a new message; start again, also after a timeout) "
+         "with the stamp advanced by 0/0.125/0.375/0.75/3 between construction and start, "
          "explored breadth first with canonical-state dedupe to a fixpoint; after every operation the packets queued on the stack and the done/failed "
          "flags are compared with a plain reference model of the two timers.",
     note="Time is the stack's Stamper advanced in dyadic steps (exact float arithmetic); process() is taken as the only observation point of the timers "
-         "(at most one retransmission per process call, timeout checked before redo). Behaviour after the exchange has finished is outside the statement and not explored.",
+         "(at most one retransmission per process call, timeout checked before redo). After the exchange has finished only a new start() is explored.",
 )
 import inspect
 from mc import core
@@ -19,6 +20,8 @@ TIMEOUTS = [None, 0, 0.5, 1] if QUICK else [None, 0, 0.5, 1, 0.75, 2.5]
 REDOS = [None, 0, 0.25, 0.5, 1.0] if QUICK else [None, 0, 0.25, 0.5, 1.0, 0.125, 0.375]
 DELTAS = [0.0, 0.125, 0.25, 0.5, 1.0] if QUICK else [0.0, 0.0625, 0.125, 0.25, 0.5, 1.0]
 MAX_DEPTH = 10 if QUICK else 16
+GAPS = [0.0, 0.125, 0.375, 0.75, 3.0]     # stamp advance between constructing the exchange and start():
+                                          # none, < every redo, between redo and timeout, > timeouts 0.5, > every timeout
 MSGS = ("m1", "m2")
 SPELLINGS = ("redoTimeout", "redoTimout")
 
@@ -67,7 +70,7 @@ class Run:
 
     def __init__(self, cfg, history):
         from ioflo.aio.proto import exchanging, stacking, devicing, packeting
-        cls, skind, T, R, spelling = cfg
+        cls, skind, T, R, spelling, gap = cfg
         self.cfg = cfg
         self.diverged = None       # (group, what)
         self.construct_error = None
@@ -97,6 +100,9 @@ class Run:
             self.construct_error = "%s: %s" % (type(ex).__name__, ex)
             return
         self.model = Model(klass.Timeout if T is None else T, klass.RedoTimeout if R is None else R)
+        # the exchange exists for `gap` before it is started: deadlines count from start(), not from construction
+        self.stack.stamper.stamp += gap
+        self.model.now += gap
         self.step(("start", "m1"))
         for op in history:
             if self.diverged:
@@ -161,8 +167,8 @@ class Run:
 
 
 def cfg_str(cfg, spelled=True):
-    cls, skind, T, R, spelling = cfg
-    return "%s(stack=%s, timeout=%r, %s=%r)" % (cls, skind, T, spelling, R)
+    cls, skind, T, R, spelling, gap = cfg
+    return "%s(stack=%s, timeout=%r, %s=%r)%s" % (cls, skind, T, spelling, R, " started %r after construction" % gap if gap else "")
 
 
 def hist_str(history):
@@ -179,8 +185,10 @@ def work(cfg):
         return Run(cfg, history)
 
     def enabled(run, history):
-        if run.ex is None or run.diverged or run.ex.done:
+        if run.ex is None or run.diverged:
             return []
+        if run.ex.done:
+            return [("start", "m1")]      # a finished (timed out) exchange may only be started again
         return ops
 
     def check(run, history):
@@ -198,7 +206,7 @@ def work(cfg):
             p.outcome("diverged:" + group)
             p.violation(group, "%s %s" % (cfg_str(cfg), hist_str(history)), what,
                         dict(config=cfg_str(cfg), ops_after_start=[list(o) for o in history],
-                             how="start with message m1 at stamp 0; 'adv d' = stack.stamper.stamp += d then exchange.process(); "
+                             how="construct at stamp 0, advance the stamp by the gap named in config (if any), start with message m1; 'adv d' = stack.stamper.stamp += d then exchange.process(); "
                                  "'send m' = exchange.send(packet m); 'start m' = start again", divergence=what))
             return True
         if run.ex.failed:
@@ -235,7 +243,10 @@ def configs():
             for T in TIMEOUTS:
                 for R in REDOS:
                     for sp in spellings:
-                        out.append((cls, skind, T, R, sp))
+                        for gap in GAPS:
+                            if gap and skind != "Stack" and QUICK:
+                                continue          # gaps on one stack kind in the quick tier
+                            out.append((cls, skind, T, R, sp, gap))
     return spellings, out
 
 
@@ -250,20 +261,21 @@ def run():
                           "Exchange.__init__ declares neither redoTimeout nor redoTimout", dict())
     ck.merge(core.pmap(work, cfgs))
     ck.coverage_extra = dict(configurations=len(cfgs), redo_keyword_spellings=spellings, deltas=DELTAS,
-                             timeouts=[repr(t) for t in TIMEOUTS], redo_timeouts=[repr(r) for r in REDOS], max_depth=MAX_DEPTH)
+                             construct_to_start_gaps=GAPS, timeouts=[repr(t) for t in TIMEOUTS], redo_timeouts=[repr(r) for r in REDOS], max_depth=MAX_DEPTH)
     ck.assumptions = [
         "process() is the only point where timers are observed: at each call the exchange fails if the overall timeout has elapsed, otherwise "
         "retransmits its latest message exactly once if the redo interval has elapsed since the start or the last retransmission (interval restarts at that call)",
         "a redo keyword spelling is only exercised if Exchange.__init__ declares it (redoTimeout, or the pinned tree's redoTimout)",
+        "timeout and redo interval count from start() (also a second start() after a timeout), not from construction of the exchange object",
         "send() of a new message does not restart the redo interval (as the code does; the statement is silent)",
-        "Exchangent is exercised through a minimal subclass whose respond() sends .tx and stays open; behaviour after finish/fail is not explored",
+        "Exchangent is exercised through a minimal subclass whose respond() sends .tx and stays open; after finish/fail the only operation explored is starting the exchange again",
         "stamps are dyadic so float comparison with deadlines is exact (Exchangent's default 0.1 redo interval never comes within 0.02 of a visited stamp)",
     ]
     return ck.finish(
-        rule="per configuration (class x stack kind x timeout x redo x declared keyword spelling): BFS over all sequences of "
+        rule="per configuration (class x stack kind x timeout x redo x declared keyword spelling x construction-to-start gap in %r): BFS over all sequences of "
              "{advance stamp by d then process() for d in %r, send(m1|m2), start again} from a started exchange, global dedupe on "
              "(timer remaining/expired, redo remaining/expired, done, failed, latest message), to fixpoint or depth %d; "
-             "queue contents and flags compared with the reference after every operation" % (DELTAS, MAX_DEPTH),
+             "queue contents and flags compared with the reference after every operation" % (GAPS, DELTAS, MAX_DEPTH),
         exhaustive=True)
 
 
